@@ -109,7 +109,16 @@ func (o lop) String() string {
 	return o.kind
 }
 
+// heldSlice is a slice of entries the storage or the log handed out earlier (as it would for
+// a MsgApp that is built but not yet sent) together with what it held at that moment.
+type heldSlice struct {
+	what string
+	ents []*pb.Entry
+	want []aent
+}
+
 type sut struct {
+	held  []heldSlice
 	st    *raft.MemoryStorage
 	l     *raft.VerifLog
 	m     *model
@@ -199,6 +208,12 @@ func (s *sut) enabled() []lop {
 	}
 	if m.pendSnap == 0 && m.term <= 3 && m.term != m.ledTerm {
 		for _, i := range []uint64{m.committed + 1, last + 1} {
+			// a snapshot of the current term's leader is a prefix of that leader's log: if this node
+			// already follows that leader (whose log equals the local one up to folD), the snapshot
+			// cannot carry the leader's term at an index at or below folD
+			if m.folTerm == m.term && i <= m.folD {
+				continue
+			}
 			if t, ok := m.log.term(i); !ok || t != m.term {
 				out = append(out, lop{kind: "restore", a: i, b: m.term})
 			}
@@ -534,6 +549,13 @@ func (s *sut) compare() (res string) {
 			}
 		}
 	}
+	// ---- slices handed out earlier must still hold what they held (entries are immutable and
+	// a later compaction, append or snapshot must not write into memory that was handed out)
+	for _, h := range s.held {
+		if !sameEnts(h.ents, h.want) {
+			return fmt.Sprintf("a slice handed out earlier by %s changed afterwards: now %s, was %v", h.what, describe(h.ents), h.want)
+		}
+	}
 	// ---- storage
 	if fi, _ := s.st.FirstIndex(); fi != m.sto.base+1 {
 		return fmt.Sprintf("storage.FirstIndex = %d, want %d", fi, m.sto.base+1)
@@ -580,6 +602,9 @@ func (s *sut) compare() (res string) {
 					want := refLimit(m.sto.ents[lo-m.sto.base-1:hi-m.sto.base-1], mx)
 					if err != nil || !sameEnts(got, want) {
 						return fmt.Sprintf("storage.Entries(%d,%d,max=%d) = %d entries err=%v, want %d: %v", lo, hi, mx, len(got), err, len(want), want)
+					}
+					if lo == m.sto.base+1 && hi == m.sto.last()+1 && mx == math.MaxUint64 && len(got) > 0 {
+						s.held = append(s.held, heldSlice{fmt.Sprintf("storage.Entries(%d,%d)", lo, hi), got, append([]aent(nil), want...)})
 					}
 				}
 			}
@@ -648,6 +673,9 @@ func (s *sut) compare() (res string) {
 				if err != nil || !sameEnts(got, want) {
 					return fmt.Sprintf("log.slice(%d,%d,max=%d) = %v err=%v, want %v", lo, hi, mx, describe(got), err, want)
 				}
+				if lo == first && hi == m.log.last()+1 && mx == math.MaxUint64 && len(got) > 0 {
+					s.held = append(s.held, heldSlice{fmt.Sprintf("log.slice(%d,%d)", lo, hi), got, append([]aent(nil), want...)})
+				}
 			}
 		}
 	}
@@ -691,8 +719,35 @@ func replayOps(async bool, ops []lop) (*sut, string) {
 		if msg := s.apply(o); msg != "" {
 			return s, msg
 		}
+		s.hold()
 	}
 	return s, ""
+}
+
+// hold asks the storage and the log for everything they have, as a leader building a
+// MsgApp does, and keeps the returned slices: later operations must not change them.
+func (s *sut) hold() {
+	keep := func(what string, ents []*pb.Entry, err error) {
+		if err != nil || len(ents) == 0 {
+			return
+		}
+		var want []aent
+		for _, e := range ents {
+			want = append(want, aent{index: e.GetIndex(), term: e.GetTerm(), size: len(e.GetData())})
+		}
+		s.held = append(s.held, heldSlice{what, ents, want})
+	}
+	defer func() { _ = recover() }() // queries that panic are reported by compare()
+	if fi, _ := s.st.FirstIndex(); fi > 0 {
+		if li, _ := s.st.LastIndex(); li >= fi {
+			ents, err := s.st.Entries(fi, li+1, math.MaxUint64)
+			keep(fmt.Sprintf("storage.Entries(%d,%d)", fi, li+1), ents, err)
+		}
+	}
+	if fi, li := s.l.FirstIndex(), s.l.LastIndex(); li >= fi {
+		ents, err := s.l.Slice(fi, li+1, math.MaxUint64)
+		keep(fmt.Sprintf("log.slice(%d,%d)", fi, li+1), ents, err)
+	}
 }
 
 func runLogStore(tier string, deadline time.Time) *Report {
